@@ -111,9 +111,31 @@ func guard(f func() error) (o outcome) {
 	return
 }
 
+// kidSpare is the spare capacity given to the child slice of every copy of the
+// prior value made by check (cfg.CloneCap keeps capacities of scalar slices
+// only); drawn per case in prior.
+var kidSpare int
+
+func spareKids(b *cfg.Big) {
+	if kidSpare == 0 {
+		return
+	}
+	k := make([]cfg.Kid, len(b.Kids)+kidSpare)
+	copy(k, b.Kids)
+	for i := len(b.Kids); i < len(k); i++ {
+		k[i] = cfg.Kid{ID: "stale", Parent: "stale"}
+	}
+	b.Kids = k[:len(b.Kids)]
+}
+
 func prior(t *rapid.T) cfg.Big {
+	kidSpare = 0
 	if rapid.IntRange(0, 2).Draw(t, "zeroPrior") == 0 {
 		return cfg.Big{ID: "id1"}
+	}
+	if rapid.Bool().Draw(t, "kidSpareCapacity") {
+		// a child slice trimmed by its owner (Kids[:0], Kids[:n]) before the node is decoded again
+		kidSpare = rapid.IntRange(1, 3).Draw(t, "kidExtraCap")
 	}
 	b := cfg.GenBig(t)
 	b.ID = "id1"
@@ -171,12 +193,14 @@ func describe(ps data.Points) string {
 
 func check(t *rapid.T, name string, base cfg.Big, run func(b *cfg.Big, extra bool) error, ps data.Points) {
 	a := cfg.CloneCap(base)
+	spareKids(&a)
 	oa := guard(func() error { return run(&a, false) })
 	if oa.panicked != nil {
 		t.Fatalf("%s panicked: %v\npoints: %s\n%s", name, oa.panicked, describe(ps), oa.stack)
 	}
 	// metamorphic: points of undeclared types change neither the value nor the error-ness
 	b := cfg.CloneCap(base)
+	spareKids(&b)
 	ob := guard(func() error { return run(&b, true) })
 	if ob.panicked != nil {
 		t.Fatalf("%s (with undeclared points added) panicked: %v\npoints: %s\n%s", name, ob.panicked, describe(ps), ob.stack)
